@@ -70,4 +70,97 @@ theorem parseServerHeader_put (ts csid padding : Bytes) (pad : Nat) (a : AddrPor
       = List.length payload := by omega
   rw [this]
 
+theorem ite_panic_eq_ok {α : Type} (p : Prop) [Decidable p] (y : Outcome α) (r : α) :
+    ((if p then Outcome.panic else y) = .ok r) ↔ (¬ p ∧ y = .ok r) := by
+  by_cases h : p <;> simp [h]
+theorem ite_noRoom_eq_ok {α : Type} (p : Prop) [Decidable p] (y : Outcome α) (r : α) :
+    ((if p then Outcome.noRoom else y) = .ok r) ↔ (¬ p ∧ y = .ok r) := by
+  by_cases h : p <;> simp [h]
+theorem ite_err_eq_ok {α : Type} (p : Prop) [Decidable p] (e : Err) (y : Outcome α) (r : α) :
+    ((if p then Outcome.err e else y) = .ok r) ↔ (¬ p ∧ y = .ok r) := by
+  by_cases h : p <;> simp [h]
+
+theorem addrLen_bounds (a : Addr) (ha : a.wf) : 5 ≤ addrLen a ∧ addrLen a ≤ 259 := by
+  cases a with
+  | zero => simp [addrLen, addrLenZero]
+  | ip ap => simp only [addrLen, addrPortLen]; split <;> simp [addrLenV4, addrLenV6]
+  | dom n p => obtain ⟨h1, h2, _⟩ := ha; simp only [addrLen, addrLenDomain]; omega
+
+theorem addrPortLen_bounds (a : AddrPort) : 7 ≤ addrPortLen a ∧ addrPortLen a ≤ 19 := by
+  simp only [addrPortLen]; split <;> simp [addrLenV4, addrLenV6]
+
+/-- the message header `PutUDPClientMessageHeader` writes (the padding bytes are whatever the buffer held) -/
+def ssClientHdr (b : Bytes) (a : Addr) (ps pad : Nat) (ts : Bytes) : Bytes :=
+  UInt8.ofNat HeaderTypeClientPacket ::
+    (ts ++ be16 pad ++ sub b (ps - (addrLen a).toNat - pad) pad ++ encodeAddr a)
+
+def ssClientPacket (c : Crypto) (userBlock aeadKey : Bytes) (eih : List (Bytes × Bytes)) (b : Bytes) (a : Addr)
+    (ps pl pad : Nat) (ts sid pid : Bytes) : Bytes :=
+  c.enc (ssBlock userBlock eih) (sid ++ pid) ++ (eih.map (fun kh => c.enc kh.1 (xorBytes kh.2 (sid ++ pid)))).flatten ++
+    c.aseal aeadKey ((sid ++ pid).drop 4) (ssClientHdr b a ps pad ts ++ sub b ps pl)
+
+def ssFront (k : Nat) (a : Addr) (pad : Nat) : Nat := 16 + 16 * k + 11 + (addrLen a).toNat + pad
+
+/-- shape of a successful second stage -/
+theorem ssClientPackWith_ok {c : Crypto} {userBlock aeadKey : Bytes} {eih : List (Bytes × Bytes)}
+    {b : Bytes} {a : Addr} {ps pl : Nat} {padI : Int} {ts sid pid : Bytes} {r : Packed} (ha : a.wf) (hp0 : 0 ≤ padI)
+    (h : ssClientPackWith c userBlock aeadKey eih b a ps pl padI ts sid pid = .ok r) :
+    ssFront eih.length a padI.toNat ≤ ps ∧ ps + pl + 16 ≤ b.length ∧
+      r.packetStart = (ps : Int) - ssFront eih.length a padI.toNat ∧
+      r.packetLen = ((ssFront eih.length a padI.toNat + pl + 16 : Nat) : Int) ∧
+      r.buf = splice b (ps - ssFront eih.length a padI.toNat)
+        (ssClientPacket c userBlock aeadKey eih b a ps pl padI.toNat ts sid pid) := by
+  obtain ⟨hal1, hal2⟩ := addrLen_bounds a ha
+  unfold ssClientPackWith at h
+  simp only [ite_panic_eq_ok, ite_noRoom_eq_ok] at h
+  obtain ⟨hs1, hs2, hs3, hroom, h⟩ := h
+  simp only [Outcome.ok.injEq] at h
+  subst h
+  simp only [Decidable.not_not, sliceOk, cMessageHeaderStart, cPacketStart, cPacketLen,
+    cIdentityHeadersStart, UDPSeparateHeaderLength, IdentityHeaderLength, UDPClientMessageHeaderFixedLength] at hs1 hs2 hs3 hroom ⊢
+  refine ⟨?_, by omega, ?_, ?_, ?_⟩
+  · simp only [ssFront]; omega
+  · simp only [ssFront]; omega
+  · simp only [ssFront]; omega
+  · simp only [ssFront, ssClientPacket, ssClientHdr]
+    have e : ((ps : Int) - 11 - addrLen a - padI).toNat + 11 = ps - (addrLen a).toNat - padI.toNat := by omega
+    rw [e]
+    congr 1
+    omega
+
+
+theorem sub_of_sub (bb : Bytes) (q n off m : Nat) (h : off + m ≤ n) :
+    sub bb (q + off) m = sub (sub bb q n) off m := by
+  unfold sub
+  rw [List.drop_take, List.take_take, List.drop_drop]
+  congr 1
+  omega
+
+/-- first stage: the padding choice is within the budget, so the packet respects `maxPacketSize` -/
+theorem ssClientPack_ok {c : Crypto} {userBlock aeadKey : Bytes} {eih : List (Bytes × Bytes)} {mps : Int} {pol : Policy}
+    {b : Bytes} {a : Addr} {ps pl rand : Nat} {ts sid pid : Bytes} {r : Packed} (ha : a.wf)
+    (h : ssClientPack c userBlock aeadKey eih mps pol b a ps pl rand ts sid pid = .ok r) :
+    ∃ pad : Nat, pad ≤ 65535 ∧ ssFront eih.length a pad ≤ ps ∧ ps + pl + 16 ≤ b.length ∧
+      ((ssFront eih.length a pad + pl + 16 : Nat) : Int) ≤ mps ∧
+      r.packetStart = (ps : Int) - ssFront eih.length a pad ∧
+      r.packetLen = ((ssFront eih.length a pad + pl + 16 : Nat) : Int) ∧
+      r.buf = splice b (ps - ssFront eih.length a pad) (ssClientPacket c userBlock aeadKey eih b a ps pl pad ts sid pid) := by
+  obtain ⟨hal1, hal2⟩ := addrLen_bounds a ha
+  unfold ssClientPack at h
+  rw [wf_not_domTooLong ha] at h
+  simp only [Bool.false_eq_true, if_false, ite_err_eq_ok] at h
+  obtain ⟨hmax, h⟩ := h
+  have hb := choosePadding_bounds _ (shouldPad pol a.port) rand (Int.not_lt.mp hmax)
+  generalize choosePadding _ (shouldPad pol a.port) rand = padI at h hb
+  obtain ⟨h1, h2, h3, h4, h5⟩ := ssClientPackWith_ok ha hb.1 h
+  refine ⟨padI.toNat, ?_, h1, h2, ?_, h3, h4, h5⟩
+  · have := hb.2
+    simp only [cMaxPaddingLen, cHeaderNoPaddingLen] at this
+    omega
+  · have := hb.2
+    simp only [cMaxPaddingLen, cHeaderNoPaddingLen, UDPSeparateHeaderLength, IdentityHeaderLength] at this
+    simp only [ssFront]
+    omega
+
+
 end SSV.Packet
